@@ -1,16 +1,17 @@
 """C12 -- matrix updates, join and projection follow their algebraic definition."""
 import itertools
 
-from harness.common import begin, F
+from harness.common import begin, region, F
 
 EXPLANATION = ("set_value_for_assignment / join / projection of pydcop.dcop.relations are executed on matrix relations "
                "with symbolic tables; the oracle is the cell-wise algebraic definition over every assignment.")
 ASSUMPTIONS = [
-    "table entries are integers (or reals in the 'real' jobs) with |c| <= 2^40",
-    "numpy storage replaced by dtype=object arrays (float64 rounding above 2^53 not modelled; excluded by the bound)",
+    "table entries are integers (or reals in the 'real' jobs) with |c| <= 2^40 on a plain object-array facade of numpy",
+    "'bigint' / 'mixed' jobs: integers up to 2^54 (resp. a real value set on an integer table) on a dtype-aware model of numpy storage "
+    "(symex/npmodel.py: int64 truncates reals, float64 rounds integers above 2^53 to nearest-even); every counterexample is replayed on real numpy",
 ]
 BOUNDS = {
-    "quick": "relations over scopes drawn from 4 variables (domain sizes 2,2,3,2): all pairs of scopes of size <= 2 plus selected size-3 scopes; dict and list forms; min and max; every assignment to set (choice)",
+    "quick": "storage-semantics jobs (integers up to 2^54; real value on an integer table) for set/join/projection on 1-2 scopes; relations over scopes drawn from 4 variables (domain sizes 2,2,3,2): all pairs of scopes of size <= 2 plus selected size-3 scopes; dict and list forms; min and max; every assignment to set (choice)",
     "thorough": "quick + all pairs of scopes of size <= 3, real-valued tables, str-valued domains",
 }
 OUTSIDE = "more than 4 variables, domains above 3, float rounding of ints above 2^53, NaN"
@@ -18,6 +19,7 @@ CAP_S = {"quick": 600, "thorough": 3600}
 
 DOMS = {"x": 2, "y": 2, "z": 3, "w": 2}
 BIG = 2 ** 40
+HUGE = 2 ** 54        # jobs run on the dtype-aware numpy model (symex/npmodel.py)
 
 
 def _scopes(maxlen):
@@ -48,6 +50,13 @@ def jobs(tier):
         for a, b in pairs:
             out.append({"name": "join-%s-%s-%s" % ("".join(a) or "none", "".join(b) or "none", kind), "op": "join",
                         "s1": a, "s2": b, "kind": kind})
+    # storage semantics (int64 / float64) modelled: integers up to 2^54, real value into an integer table
+    for s in (["x"], ["x", "y"], ["y", "z"]):
+        out.append({"name": "set-%s-bigint" % "".join(s), "op": "set", "s1": s, "kind": "bigint", "npmodel": True})
+        out.append({"name": "set-%s-mixed" % "".join(s), "op": "set", "s1": s, "kind": "mixed", "npmodel": True})
+    out.append({"name": "join-xy-yz-bigint", "op": "join", "s1": ["x", "y"], "s2": ["y", "z"], "kind": "bigint", "npmodel": True})
+    out.append({"name": "proj-xy-y-min-bigint", "op": "proj", "s1": ["x", "y"], "var": "y", "mode": "min", "kind": "bigint",
+                "npmodel": True})
     if tier == "thorough":
         out.append({"name": "join-str", "op": "join", "s1": ["x", "y"], "s2": ["y", "z"], "kind": "int", "dk": "str"})
         out.append({"name": "set-str", "op": "set", "s1": ["x", "z"], "kind": "int", "dk": "str"})
@@ -67,11 +76,12 @@ def _mk(eng, p):
 
 def _table(eng, p, tag, scope, variables, doms):
     from pydcop.dcop.relations import NAryMatrixRelation
-    mk = eng.sym_int if p["kind"] == "int" else eng.sym_real
+    mk = eng.sym_real if p["kind"] == "real" else eng.sym_int
+    lim = HUGE if p["kind"] in ("bigint", "mixed") else BIG
     shape = [len(doms[v]) for v in scope]
     tab = {}
     for idx in itertools.product(*[range(n) for n in shape]):
-        tab[idx] = mk("%s_%s" % (tag, "".join(map(str, idx))), -BIG, BIG)
+        tab[idx] = mk("%s_%s" % (tag, "".join(map(str, idx))), -lim, lim)
 
     def rec(prefix, dims):
         if not dims:
@@ -87,7 +97,13 @@ def _cells(scope, doms):
 
 
 def run(eng, p):
-    begin(eng)
+    if p.get("npmodel"):
+        begin(eng, numpy_facade=False)
+        if eng.symbolic:
+            from symex.npmodel import install_numpy_model
+            install_numpy_model()
+    else:
+        begin(eng)
     from pydcop.dcop.relations import join, projection
     variables, doms = _mk(eng, p)
     s1 = p["s1"]
@@ -96,7 +112,12 @@ def run(eng, p):
         form = eng.pick(["dict", "list"], "form")
         target = tuple(eng.choose(len(doms[v]), "cell_" + v) for v in s1)
         asg = {v: doms[v][i] for v, i in zip(s1, target)}
-        val = (eng.sym_int if p["kind"] == "int" else eng.sym_real)("newval", -BIG, BIG)
+        if p["kind"] == "bigint":
+            val = eng.sym_int("newval", -HUGE, HUGE)
+        elif p["kind"] in ("real", "mixed"):
+            val = eng.sym_real("newval", -BIG, BIG)
+        else:
+            val = eng.sym_int("newval", -BIG, BIG)
         arg = dict(asg) if form == "dict" else [asg[v] for v in s1]
         new = u1.set_value_for_assignment(arg, val)
         eng.notes["outcome"] = {"form": form, "target": list(target)}
@@ -107,7 +128,13 @@ def run(eng, p):
             conds.append(F.eq(got, val if idx == target else t1[idx]))
             old = u1(**a)
             same.append(F.eq(old, t1[idx]))
-        eng.prove(F.and_(conds), "new relation differs from original somewhere else than at the assignment (or not set)")
+        regs = []
+        if p["kind"] == "mixed":
+            # a real value forces float64 storage: integer cells beyond 2^53 are rounded (listed finding)
+            P53 = 2 ** 53
+            regs = region(eng, "C12-float64-result-rounding", F.or_([F.or_(F.gt(t, P53), F.lt(t, -P53)) for t in t1.values()]))
+        eng.prove(F.and_(conds), "new relation differs from original somewhere else than at the assignment (or not set)",
+                  regions=regs)
         eng.prove(F.and_(same), "set_value_for_assignment modified the original relation")
     elif p["op"] == "join":
         s2 = p["s2"]
@@ -123,7 +150,11 @@ def run(eng, p):
             e2 = t2[tuple(doms[v].index(a[v]) for v in s2)]
             got = j(**a)
             conds.append(F.eq(got, e1 + e2))
-        eng.prove(F.and_(conds), "join value differs from u1 + u2 on some assignment")
+        P53 = 2 ** 53
+        big = F.or_([F.or_(F.gt(t, P53), F.lt(t, -P53)) for t in list(t1.values()) + list(t2.values())] +
+                    [F.or_(F.gt(a + b, P53), F.lt(a + b, -P53)) for a in t1.values() for b in t2.values()])
+        regs = region(eng, "C12-float64-result-rounding", big) if p["kind"] == "bigint" else []
+        eng.prove(F.and_(conds), "join value differs from u1 + u2 on some assignment", regions=regs)
     elif p["op"] == "proj":
         var, mode = p["var"], p["mode"]
         pr = projection(u1, variables[var], mode)
@@ -141,4 +172,7 @@ def run(eng, p):
             got = pr(**a)
             opt = F.min_(cands) if mode == "min" else F.max_(cands)
             conds.append(F.eq(got, opt))
-        eng.prove(F.and_(conds), "projection value differs from the %s over the eliminated variable" % mode)
+        P53 = 2 ** 53
+        regs = region(eng, "C12-float64-result-rounding",
+                      F.or_([F.or_(F.gt(t, P53), F.lt(t, -P53)) for t in t1.values()])) if p["kind"] == "bigint" else []
+        eng.prove(F.and_(conds), "projection value differs from the %s over the eliminated variable" % mode, regions=regs)
